@@ -185,7 +185,8 @@ fn template_line(rng: &mut Rng, vocab: &[String]) -> String {
         }
     };
     let cs = |rng: &mut Rng| vocab[rng.below(vocab.len())].clone();
-    match rng.below(47) {
+    match rng.below(49) {
+        47 | 48 => deep_nesting(rng),
         41..=43 => wide_layout(rng),
         44..=46 => line_start(rng, vocab),
         0 => format!("\\count{}={} ", num(rng), num(rng)),
@@ -290,6 +291,44 @@ fn template_line(rng: &mut Rng, vocab: &[String]) -> String {
                 "\\catcode32=12 \\count1 = 1 ", "\\catcode13=12 ", "\\endlinechar=-1 ", "\\endlinechar=92 ", "\\endlinechar=37 ", "\\endlinechar=123 ",
             ][rng.below(50)]
             .to_string()
+        }
+    }
+}
+
+/// Deep but finite nesting with an error at the bottom (or nothing closed at all): nested macro
+/// calls, groups, true and skipped conditionals, and a chain of n macros each calling the next, so
+/// that the error's stack trace has n frames. n is drawn around 8-bit and round-number limits.
+fn deep_nesting(rng: &mut Rng) -> String {
+    let n = [10usize, 64, 99, 100, 101, 255, 256, 300, 1000, 3000][rng.below(10)];
+    let bottom = ["\\undefinedcs ", "\\count ", "\\count1=x ", "}", "\\fi ", "x", "\\dimen0=\\count1 ", "\\endinput "][rng.below(8)];
+    let close = rng.chance(2, 3);
+    let letters = |mut k: usize| {
+        let mut s = String::new();
+        loop {
+            s.push((b'a' + (k % 26) as u8) as char);
+            k /= 26;
+            if k == 0 {
+                break;
+            }
+        }
+        s
+    };
+    match rng.below(6) {
+        0 => format!("\\def\\xa#1{{#1}}{}{bottom}{}", "\\xa{".repeat(n), if close { "}".repeat(n) } else { String::new() }),
+        1 => format!("{}{bottom}{}", "{".repeat(n), if close { "}".repeat(n) } else { String::new() }),
+        2 => format!("{}{bottom}{}", "\\iftrue ".repeat(n), if close { "\\fi ".repeat(n) } else { String::new() }),
+        3 => format!("\\iffalse {}{bottom}{}\\fi {bottom}", "\\ifnum1<2 ".repeat(n), if close { "\\fi ".repeat(n) } else { String::new() }),
+        4 => format!("{}{bottom}{}", "\\ifcase 1 \\or ".repeat(n), if close { "\\fi ".repeat(n) } else { String::new() }),
+        _ => {
+            // a chain of macros: \\zda -> \\zdb -> ... -> the error
+            let n = n.min(300);
+            let mut s = String::new();
+            for k in 0..n {
+                let next = if k + 1 < n { format!("\\zd{} ", letters(k + 1)) } else { bottom.to_string() };
+                s.push_str(&format!("\\def\\zd{}{{{next}}}", letters(k)));
+            }
+            s.push_str("\\zda ");
+            s
         }
     }
 }
